@@ -57,6 +57,11 @@ macro_rules! bail {
         return Err($crate::error::Error::from($e))
     };
 }
+macro_rules! runtime_error {
+    ($lit:literal $(, $($rest:tt)*)?) => {
+        $crate::error::Error($crate::error::ErrorKind::RuntimeError($lit))
+    };
+}
 
 mod prelude;
 pub mod standins;
@@ -96,7 +101,7 @@ pub mod val {
 pub mod operator {
     use std::cmp::Ordering;
     use crate::error::{ErrorKind::*, Result};
-    use crate::standins::{std_format, IntoUntyped as _};
+    use crate::standins::{std_format, IntoUntyped as _, String};
     use crate::types::{BinaryOpType, UnaryOpType};
     use crate::val::{equals, ArrValue, StrValue, Val};
     //@extract crates/jrsonnet-evaluator/src/evaluate/operator.rs :: fn evaluate_unary_op
@@ -113,6 +118,21 @@ pub mod operator {
     /// stand-in expression is an already computed value plus an evaluation counter
     pub use crate::standins::{evaluate, Context, Expr};
     //@extract crates/jrsonnet-evaluator/src/evaluate/operator.rs :: fn evaluate_binary_op_special
+}
+
+/// `std.repeat` (jrsonnet-stdlib/src/arrays.rs), the string side
+pub mod stdrepeat {
+    use crate::error::Result;
+    use crate::standins::{ArrValue, IStr, String};
+    use crate::val::Val;
+    pub enum Either2<A, B> {
+        A(A),
+        B(B),
+    }
+    macro_rules! Either {
+        [$a:ty, $b:ty] => { Either2<$a, $b> };
+    }
+    //@extract crates/jrsonnet-stdlib/src/arrays.rs :: fn builtin_repeat
 }
 
 #[cfg(kani)]
